@@ -26,6 +26,7 @@ open ScpiVerif.Drv
 def dispatch (cfg : String) (inp : List String) (obs : List String) : Option Verdict :=
   match inp.head? with
   | some "I" => runIntFmt inp obs
+  | some "IFULL" => runIntFull inp obs
   | some "Q" => runQueue cfg inp obs
   | some "R" => runRegs inp obs
   | some "H" => runHeap inp obs
